@@ -99,7 +99,7 @@ Print Assumptions C06_generic_iq_core_once.
    no other layer reacts *)
 Theorem C06_reply_once : forall n ok err, In (n, ok, err) requests ->
   exists k, find_kind n = Some k /\ forall c, supported c k = true ->
-    forall d i x fr to p ch, fd_id d = Some i -> plain_reply x ch ->
+    forall d i x fr to p ch, fd_id d = Some i -> plain_reply (request_layer k) x ch ->
     let st := apply_registers [] (par_send repaired c (feat_of k d)) in
     (let a := par_recv repaired c st (reply_feat x (Some "result") i fr to p ch) in
      (ups a, downs a, raises a) = ([ok], [], 0)) /\
